@@ -25,12 +25,17 @@ class C02Float(D.FloatStream):
     FINDING_OF = staticmethod(finding_of)
 
 
+class C02Reuse(D.ReuseStream):
+    CLAUSES = ("C02_", "F4_")
+    FINDING_OF = staticmethod(finding_of)
+
+
 class C02Manager(MG.ManagerStream):
     CLAUSES = ("C02_", "F4_")
 
 
 def streams():
-    return [C02Exact(), C02Float(), C02Manager()]
+    return [C02Exact(), C02Float(), C02Manager(), C02Reuse()]
 
 
 ASSUMPTIONS = [
